@@ -6,6 +6,10 @@ import QlibcModel.Generated.LockAtomic
 import QlibcModel.Conc.AtomicLin
 import QlibcModel.Generated.MutexMacros
 import QlibcModel.Conc.Mutex
+import QlibcModel.Shapes.Tree
+import QlibcModel.Shapes.Hashtbl
+import QlibcModel.Shapes.Listtbl
+import QlibcModel.Shapes.Seq
 /-! C13 — the thread-safe option makes concurrent use linearizable.
 
 1. `wellLocked_linearizable` (Conc/Lin.lean): generic, for all programs and ALL schedules — operations
